@@ -28,8 +28,9 @@ MANIFEST = dict(
          "bytes before an earlier one, which the real candidate stream satisfies since fix 81c4ffe widened the pruning window (former finding F13), H2 = one "
          "length per head offset is what finding C02-chain-single-length violates); the bytecode VM model (yr_re_exec) is sound on the code of the emit model for EVERY hex "
          "AST (HexAst: bytes, ??, nibble masks, ~ negations, jumps, alternatives nested to any depth - no fragment restriction; code below the emitter's int16 jump range) "
-         "in forward direction, all buffers, start positions and flags (vm_sound, the hex instance of the theorem for all well-formed expressions of Thm/C03). NOT proved: VM soundness for backward code and for the fast "
-         "matcher yr_re_fast_exec, VM completeness, chains of more than two pieces, atom extraction and Aho-Corasick. That gap is covered by SAMPLING on every run: generated patterns x buffers through the real engine vs. the compiled Lean specification "
+         "all buffers, start positions and flags, for the forward code (vm_sound) and for the backward code run with RE_FLAGS_BACKWARDS (vm_sound_backward: every reported "
+         "length L has L <= start and the pattern matches buf[start-L, start)) - the hex instances of the theorems for all well-formed expressions of Thm/C03. NOT proved: VM soundness for the fast "
+         "matcher yr_re_fast_exec and for runs entering the code at an atom's instruction, VM completeness, chains of more than two pieces, atom extraction and Aho-Corasick. That gap is covered by SAMPLING on every run: generated patterns x buffers through the real engine vs. the compiled Lean specification "
          "(complete match lists, both directions of the iff), the parser AST tie, the real bytecode through the C VM and the Lean VM model (exact agreement incl. callback "
          "order), the whole-pattern code run exhaustively vs. the specification, and the Lean emit model vs. the bytes yr_re_ast_emit_code writes.",
     design_ref="DESIGN.md §4 D6/D7, §5 C02",
